@@ -4,6 +4,7 @@ import (
 	"context"
 	"encoding/json"
 	"reflect"
+	"sync"
 	"time"
 )
 
@@ -11,8 +12,11 @@ import (
 // among a symbolic subset of the other bus options.
 func c09Opts(st EventStore, hookRuns *int) []Option {
 	others := []Option{}
-	if vBool() {
+	switch vInt(0, 2) {
+	case 1:
 		others = append(others, WithBeforePublishContext(func(ctx context.Context, t reflect.Type, ev any) { *hookRuns = *hookRuns + 1 }))
+	case 2:
+		others = append(others, WithBeforePublishContext(nil))
 	}
 	if vBool() {
 		others = append(others, WithBeforePublish(func(t reflect.Type, ev any) {}))
@@ -34,7 +38,7 @@ func c09Opts(st EventStore, hookRuns *int) []Option {
 	return opts
 }
 
-//verif:entry property=C09 tier=both bounds="every subset of 5 other bus options with WithStore at every position; K publishes (K_quick=2,K_thorough=3) of value, pointer and custom-named events with symbolic fields; store read from inside the handler" cover="published" K_quick=2 K_thorough=3
+//verif:entry property=C09 tier=both bounds="every subset of 5 other bus options (the context hook also as nil) with WithStore at every position; K publishes (K_quick=2,K_thorough=3) of value, pointer and custom-named events with symbolic fields; store read from inside the handler" cover="published" K_quick=2 K_thorough=3
 func harnessC09Config() {
 	K := vParam("K", 2)
 	ctx := context.Background()
@@ -105,5 +109,52 @@ func harnessC09Config() {
 		}
 	}
 	vAssert(wants[0].typ != "" || evNamedName == "", "type-name-nonempty")
+	vCover("published")
+}
+
+// c09RawStore has no locking of its own: the bus must serialise appends.
+type c09RawStore struct {
+	events []*StoredEvent
+	next   int
+}
+
+func (s *c09RawStore) Append(ctx context.Context, e *Event) (Offset, error) {
+	s.next++
+	n := s.next
+	vYield()
+	o := Offset([]byte{'0' + byte(n)})
+	s.events = append(s.events, &StoredEvent{Offset: o, Type: e.Type, Data: e.Data})
+	return o, nil
+}
+
+func (s *c09RawStore) Read(ctx context.Context, from Offset, limit int) ([]*StoredEvent, Offset, error) {
+	return s.events, from, nil
+}
+
+//verif:entry property=C09 tier=both bounds="G concurrent publishers of one event each on a persistent bus whose store has no locking of its own; every interleaving within the preemption bound; race monitor on" cover="published" G_quick=2 G_thorough=3 preempt_quick=2 preempt_thorough=3 race=on
+func harnessC09Concurrent() {
+	G := vParam("G", 2)
+	st := &c09RawStore{}
+	bus := New(WithStore(st))
+	var wg sync.WaitGroup
+	for g := 0; g < G; g++ {
+		wg.Add(1)
+		n := g
+		go func() {
+			defer wg.Done()
+			Publish(bus, evA{N: n})
+		}()
+	}
+	wg.Wait()
+	vAssert(len(st.events) == G, "exactly-one-record-per-publish")
+	seen := make([]bool, G)
+	for i, se := range st.events {
+		var d evA
+		vAssert(json.Unmarshal(se.Data, &d) == nil && d.N >= 0 && d.N < G && !seen[d.N], "each-publish-recorded-once")
+		seen[d.N] = true
+		if i > 0 {
+			vAssert(st.events[i-1].Offset < se.Offset, "offsets-distinct-and-increasing")
+		}
+	}
 	vCover("published")
 }
